@@ -21,3 +21,14 @@ theorem settle_exits (s : TState) (h : StopInv s) : s.settle.phase = .exited := 
   obtain ⟨hs, hp⟩ := h
   simp only at hs; subst hs
   cases ph <;> cases pm <;> simp_all [TState.settle, TState.step]
+
+/-- after `setStop; notifyOne`, whatever else happens, the task exits once it has run -/
+theorem task_exits_after_stop (s : TState) (ops : List TOp) :
+    (((s.step .setStop).step .notifyOne).run ops).settle.phase = .exited := by
+  apply settle_exits
+  generalize hs0 : (s.step .setStop).step .notifyOne = s0
+  have h0 : StopInv s0 := hs0 ▸ stopInv_after s
+  clear hs0
+  induction ops generalizing s0 with
+  | nil => exact h0
+  | cons op ops ih => exact ih _ (stopInv_step s0 h0 op (Or.inr trivial))
